@@ -80,13 +80,13 @@ type uciEvent struct {
 
 // uciRun is the observable record of one execution.
 type uciRun struct {
-	p        uciParams
-	events   []uciEvent
-	sent     []string // lines handed to the input channel, in order
-	consumed int      // how many of them the driver loop has taken
-	in       chan string
-	out      <-chan string
-	driver   *uci.Driver
+	p         uciParams
+	events    []uciEvent
+	sent      []string // lines handed to the input channel, in order
+	consumed  int      // how many of them the driver loop has taken
+	in        chan string
+	out       <-chan string
+	driver    *uci.Driver
 	outClosed bool
 	bestmoves int
 	readyoks  int
